@@ -1088,3 +1088,93 @@ def sm_table(ctx):
                    "list" % (tpl, 'written' if bad and bad[1] else 'not written',
                              bad[0] if bad else '', norm_text(st.test)[:60]))
     ctx.floor('SM-TABLE', n, 2, 'parameter-table column conditions')
+
+
+def sm_first_dt(ctx):
+    """The first sample of Parameters.apply: the vector of sampling intervals starts with 0 (no
+    time has passed: the bias walk has not moved yet), and before any use that divides by the
+    interval (white noise of a rate sensor scales with dt ** -0.5) element 0 is overwritten with
+    a later, positive interval - otherwise the first reading is inf / NaN."""
+    ctx.rule('SM-FIRST-DT', 'Parameters.apply: the interval vector starts with 0 for the bias walk '
+             'and its first element is replaced by a later interval before any negative power of '
+             'the interval is taken')
+    pm = ctx.repo.klass('inertial_sensor.Parameters')
+    ap = pm.methods['apply']
+    ctx.touch(ap)
+    res = lambda n: ap.module.resolve(n, ap.local_names())
+    body = ap.node.body
+    # the interval vector: the local built from np.diff(readings.index)
+    dts = [st for st in body if isinstance(st, ast.Assign) and isinstance(st.targets[0], ast.Name)
+           and any(isinstance(c, ast.Call) and res(c.func) == 'numpy.diff'
+                   for c in ast.walk(st.value))]
+    ctx.need(len(dts) == 1, 'Parameters.apply: interval vector not identified')
+    dname = dts[0].targets[0].id
+    hs = [c for c in ast.walk(dts[0].value) if isinstance(c, ast.Call) and
+          res(c.func) in ('numpy.hstack', 'numpy.concatenate', 'numpy.r_', 'numpy.append',
+                          'numpy.insert')]
+    first = None
+    if hs and hs[0].args and isinstance(hs[0].args[0], (ast.List, ast.Tuple)) and \
+            hs[0].args[0].elts:
+        e0 = hs[0].args[0].elts[0]
+        if isinstance(e0, ast.Constant):
+            first = e0.value
+        elif isinstance(e0, (ast.List, ast.Tuple)) and e0.elts and \
+                isinstance(e0.elts[0], ast.Constant):
+            first = e0.elts[0].value
+    ctx.need(first is not None, 'Parameters.apply: first element of the interval vector not '
+             'recognised in `%s`' % norm_text(dts[0].value)[:60])
+    ctx.ob('SM-FIRST-DT', first == 0, None, 'interval vector starts with 0', f=ap, node=dts[0],
+           key='first-zero',
+           why='the interval attributed to the first sample is %r, not 0: the simulated bias walk '
+               'has already moved at the first sample (its variance is offset from the one the '
+               'estimator assumes)' % first)
+
+    def is_fix(st):
+        if not (isinstance(st, ast.Assign) and isinstance(st.targets[0], ast.Subscript) and
+                norm_text(st.targets[0].value) == dname):
+            return False
+        ti = st.targets[0].slice
+        t0 = ti.elts[0] if isinstance(ti, ast.Tuple) else ti
+        if not (isinstance(t0, ast.Constant) and t0.value == 0):
+            return False
+        v = st.value
+        if not (isinstance(v, ast.Subscript) and norm_text(v.value) == dname):
+            return False
+        vi = v.slice
+        v0 = vi.elts[0] if isinstance(vi, ast.Tuple) else vi
+        return isinstance(v0, ast.Constant) and isinstance(v0.value, int) and v0.value >= 1
+    fixes = [i for i, st in enumerate(body) if is_fix(st)]
+
+    def neg_uses(st):
+        out = []
+        for n in ast.walk(st):
+            if isinstance(n, ast.BinOp) and isinstance(n.op, ast.Pow) and \
+                    norm_text(n.left) == dname:
+                try:
+                    p_ = ctx.repo.fold(n.right, ap.module)
+                except ValueError:
+                    p_ = None
+                if isinstance(p_, (int, float)) and p_ < 0:
+                    out.append(n)
+            if isinstance(n, ast.BinOp) and isinstance(n.op, ast.Div) and \
+                    any(isinstance(x, ast.Name) and x.id == dname for x in ast.walk(n.right)):
+                out.append(n)
+        return out
+    uses = [(i, u) for i, st in enumerate(body) for u in neg_uses(st)]
+    ctx.floor('SM-FIRST-DT', len(uses), 1, 'uses that divide by the interval')
+    for i, u in uses:
+        ok = any(j < i for j in fixes)
+        ctx.ob('SM-FIRST-DT', ok, None, '`%s` is taken after the first interval was replaced'
+               % norm_text(u)[:40], f=ap, node=u, key='neg-' + norm_text(u)[:30],
+               why='`%s` divides by the interval vector while its first element is still the 0 of '
+                   'the first sample (no statement `%s[0, ...] = %s[k, ...]`, k >= 1, precedes '
+                   'it): the first reading becomes inf / NaN' % (norm_text(u)[:50], dname, dname))
+    # the walk is accumulated BEFORE the replacement (its first step has zero length)
+    walk = [i for i, st in enumerate(body) if any(
+        isinstance(c, ast.Call) and res(c.func) == 'numpy.cumsum' for c in ast.walk(st)) and
+        any(isinstance(x, ast.Name) and x.id == dname for x in ast.walk(st))]
+    if walk and fixes:
+        ctx.ob('SM-FIRST-DT', walk[0] < fixes[0], None, 'the bias walk is accumulated with the '
+               'zero first interval', f=ap, node=body[walk[0]], key='walk-before',
+               why='the bias walk is accumulated after the first interval was replaced by a '
+                   'positive one: it has already moved at the first sample')
